@@ -40,7 +40,7 @@ def cases(draw, tier="quick"):
 
 def fixed_cases(tier):
     out = []
-    sizes = [65535] if tier == "quick" else [65535, 65536, 70000]
+    sizes = [65535, 65537] if tier == "quick" else [65535, 65536, 65537, 70000, 131071]
     for n in sizes:
         for r in (["u16"] if n <= 65536 and tier == "quick" else ["u16", "i32"] if n <= 65536 else ["u32"]):
             out.append({"spec": {"repr": r, "vis": "pub", "ident": "E", "enum_attrs": [],
